@@ -310,7 +310,16 @@ func runC03(c *ctx, r *Report) error {
 	if !c.quick {
 		nPS = 20000
 	}
-	return parseStepTie(c, r, nPS, func(cs Case) (string, string) {
+	if err := parseStepTie(c, r, nPS, func(cs Case) (string, string) {
 		return "step-node-differs-from-parse-rule", "the Step node / diagnostics the parser produces for this key order (" + cs.Impl + ") differ from the modelled parse rule (" + cs.Model + ")"
-	})
+	}); err != nil {
+		return err
+	}
+	// the whole parser against its model AL.PW: every field of the AST (where each scalar is stored, with which position and
+	// quoting flag) on the project's corpus and on mutants of it
+	per := 8
+	if !c.quick {
+		per = 300
+	}
+	return pwStandard(c, r, "ast", per, false)
 }
